@@ -89,9 +89,10 @@ Plans == <<
   Join(<<NumS("0.5")>>, Over(<<Sel(<<Re("__name__", "h1_bucket|h2_bucket", <<"h1_bucket", "h2_bucket">>)>>)>>, LAMBDA c : Agg("sum", TRUE, <<"le">>, <<c>>)), LAMBDA a, b : Fn("histogram_quantile", <<a, b>>)) >>
 
 VARIABLE g
-Init == g \in [p : 1..Len(Plans), w : {"instant", "r12", "r4"}]
+\* r0: 14 steps from the epoch itself (the first step has timestamp 0)
+Init == g \in [p : 1..Len(Plans), w : {"instant", "r12", "r4", "r0"}]
 Next == UNCHANGED g
-ScnOf(x) == Scn("wf", "C19", TickMs, Data, Plans[x.p], 1, IF x.w = "instant" THEN 1 ELSE IF x.w = "r12" THEN 12 ELSE 10,
-                IF x.w = "instant" THEN 0 ELSE IF x.w = "r12" THEN 1 ELSE 3, 2, 0)
+ScnOf(x) == Scn("wf", "C19", TickMs, Data, Plans[x.p], IF x.w = "r0" THEN 0 ELSE 1, IF x.w = "instant" THEN 1 ELSE IF x.w = "r12" THEN 12 ELSE IF x.w = "r0" THEN 13 ELSE 10,
+                IF x.w = "instant" THEN 0 ELSE IF x.w \in {"r12", "r0"} THEN 1 ELSE 3, 2, 0)
 EmitWF == Emit(ScnOf(g))
 =============================================================================
